@@ -30,9 +30,11 @@ EXTRA_FLAGS = {"fileio": _SAN, "fileio_nn": _SAN + ["-fno-sanitize=null"]}
 # ---- one-line switches: set to "1" when the corresponding repair is in /repo; the Coq reader
 # ---- model is then run with the check (MMFormat.mm_checked / BinFormat.read_crs true), which
 # ---- is what theorems C19_mm_read_checked_safe / C19_bin_read_checked_safe are about.
-# The default below is THE one-line switch ("0000" = code as it is, "1111" = all four repairs in
-# /repo); VERIF_C19_FLAGS overrides it for trying a patched tree (VERIF_REPO=...).
-_FLAGS = (os.environ.get("VERIF_C19_FLAGS") or "0000").ljust(4, "0")
+# The default below is THE one-line switch: "1111" = the repaired readers (fix: commits f41c045,
+# 60b70e9, d94af74, 436f08e in /repo), which is what the correspondence ties to theorems
+# C19_mm_read_checked_safe / C19_bin_read_checked_safe; "0000" = the readers before the repairs
+# (only for replaying the historical *_refuted witnesses on an old tree: VERIF_C19_FLAGS=0000 VERIF_REPO=...).
+_FLAGS = (os.environ.get("VERIF_C19_FLAGS") or "1111").ljust(4, "0")
 MM_CHK_INDEX = _FLAGS[0]      # precondition 1 <= i <= n, 1 <= j <= m, symmetric => square  (mm.hpp:186)
 MM_CHK_TRAILING = _FLAGS[1]   # precondition: no data after the announced entries            (mm.hpp:208)
 MM_CHK_RANGE = _FLAGS[2]      # precondition row_beg <= row_end                              (mm.hpp:163, 271)
